@@ -11,6 +11,7 @@ Reading of the property used here (see NOTES/C15.md):
 import RtcModel.Lemmas.C15Rtp
 import RtcModel.Lemmas.C15Ext
 import RtcModel.Lemmas.C15Rtcp
+import RtcModel.Lemmas.C15NackBuf
 
 namespace RtcModel.Theorems.C15
 open RtcModel.C15 RtcModel.Generated
@@ -432,5 +433,122 @@ theorem rtcp_marshal_identity_all_witness :
   have h3 : [p] = [p].map canon := by injection h2
   revert h3
   decide
+
+/-! ### NACK send buffer and receiver gap detection (`src/peer_connection.rs`) -/
+
+/-- **nackbuf_bounded**: after any sequence of sends and NACK queries on a handler created with any
+`max_size`, the store holds at most `max(max_size, 1)` packets, the FIFO has no duplicates and the
+map holds exactly the FIFO's sequence numbers (so `buffered_packet_count` = FIFO length). -/
+theorem nackbuf_bounded (maxSize : Nat) (ops : List BufOp) :
+    let b := bufFinal (NackBuf.new maxSize) ops
+    b.packets.length ≤ max maxSize 1 ∧ b.packets.length = b.order.length ∧ b.order.Nodup ∧
+      ∀ s, s ∈ b.order ↔ (mapGet b.packets s).isSome = true := by
+  intro b
+  have i : b.Inv := inv_final (inv_new maxSize) ops
+  have hl := keysMatch_length _ _ i.nodup i.keys
+  have hm : b.maxSize = max maxSize 1 := by
+    have : ∀ (ops : List BufOp) (b0 : NackBuf), (bufFinal b0 ops).maxSize = b0.maxSize := by
+      intro ops
+      induction ops with
+      | nil => intro b0; rfl
+      | cons o os ih =>
+        intro b0
+        simp only [bufFinal]; rw [ih]
+        cases o with
+        | push s t => simp only [NackBuf.step, NackBuf.push]; split <;> rfl
+        | query n q => rfl
+    exact this ops _
+  exact ⟨by rw [hl, ← hm]; exact i.bounded, hl, i.nodup, mem_order_iff i⟩
+
+/-- **nackbuf_latest**: the packet just sent is always retrievable, with its newest content (a re-sent
+sequence number replaces the stored packet) — in every reachable state. -/
+theorem nackbuf_latest (maxSize : Nat) (ops : List BufOp) (s : UInt16) (t : Nat) :
+    mapGet ((bufFinal (NackBuf.new maxSize) ops).push s t).packets s = some t :=
+  push_get_self (inv_final (inv_new maxSize) ops) s t
+
+/-- **nackbuf_fifo**: one send changes the FIFO in exactly one of three ways — nothing (sequence number
+already buffered), append, or append and drop the single OLDEST entry (only when the buffer is full). -/
+theorem nackbuf_fifo (maxSize : Nat) (ops : List BufOp) (s : UInt16) (t : Nat) :
+    let b := bufFinal (NackBuf.new maxSize) ops
+    (b.push s t).order =
+      if s ∈ b.order then b.order
+      else if b.order.length < b.maxSize then b.order ++ [s]
+      else b.order.tail ++ [s] :=
+  push_order (inv_final (inv_new maxSize) ops) s t
+
+example : (bufFinal (NackBuf.new 2) [.push 1 10, .push 2 20, .push 3 30]).order = [2, 3] := by decide
+
+/-- **gap_lost_exact**: when a packet of the current stream arrives `d` (1 < d < 2^15, wrap-around
+included) ahead of the last one and was not already requested, the NACK lists exactly the missing
+sequence numbers `seq-1, seq-2, …` — all `d-1` of them if at most 128, otherwise the newest 128 — no
+other number, and the detector moves on to `seq`. -/
+theorem gap_lost_exact (st : GapSt) (ssrc : UInt32) (seq : UInt16)
+    (hinit : st.initialized = true) (hs : st.lastSsrc = 0 ∨ st.lastSsrc = ssrc)
+    (hp : st.pending.contains seq = false)
+    (hd1 : 1 < (seq - st.lastSeq).toNat) (hd2 : (seq - st.lastSeq).toNat < 32768) :
+    ∃ lost, (st.step ssrc seq).2 = some lost ∧
+      lost.length = min ((seq - st.lastSeq).toNat - 1) 128 ∧
+      (∀ x, x ∈ lost ↔ ∃ k, 1 ≤ k ∧ k ≤ min ((seq - st.lastSeq).toNat - 1) 128 ∧ x = seq - UInt16.ofNat k) ∧
+      (st.step ssrc seq).1.lastSeq = seq := by
+  have hH : c15GapHalf = 32768 := c15GapHalf_val
+  have hG : c15MaxReceiverNackGap = 128 := c15MaxReceiverNackGap_val
+  have h1 : ¬ (st.lastSsrc ≠ 0 ∧ st.lastSsrc ≠ ssrc) := by
+    rcases hs with h | h <;> simp [h]
+  have h4 : (seq - st.lastSeq).toNat > 1 ∧ (seq - st.lastSeq).toNat < c15GapHalf := ⟨hd1, by omega⟩
+  unfold GapSt.step
+  rw [if_neg h1]
+  simp only [hinit, Bool.not_true, Bool.false_eq_true, if_false, hp]
+  rw [if_pos h4]
+  refine ⟨_, rfl, ?_, ?_, rfl⟩
+  · rw [seqRun_length, hG]; omega
+  · intro x
+    rw [mem_seqRun, hG]
+    have hseq := add_sub_cancel16 seq st.lastSeq
+    have hd := (seq - st.lastSeq).toNat_lt
+    generalize (seq - st.lastSeq).toNat = d at *
+    have hl := st.lastSeq.toNat_lt
+    constructor
+    · rintro ⟨i, hi, rfl⟩
+      refine ⟨(d - 1 - (d - 1 - 128)) - i, by omega, by omega, ?_⟩
+      rw [← hseq]
+      apply UInt16.toNat_inj.mp
+      simp [UInt16.toNat_add, UInt16.toNat_sub]
+      omega
+    · rintro ⟨k, hk1, hk2, rfl⟩
+      refine ⟨(d - 1 - (d - 1 - 128)) - k, by omega, ?_⟩
+      rw [← hseq]
+      apply UInt16.toNat_inj.mp
+      simp [UInt16.toNat_add, UInt16.toNat_sub]
+      omega
+
+/-- **gap_no_spurious_nack**: a NACK is produced ONLY in the situation of `gap_lost_exact` — never for
+the first packet, a stream switch, an in-order, duplicate, recovered or old packet. -/
+theorem gap_no_spurious_nack (st : GapSt) (ssrc : UInt32) (seq : UInt16) (lost : List UInt16)
+    (h : (st.step ssrc seq).2 = some lost) :
+    st.initialized = true ∧ (st.lastSsrc = 0 ∨ st.lastSsrc = ssrc) ∧ st.pending.contains seq = false ∧
+      1 < (seq - st.lastSeq).toNat ∧ (seq - st.lastSeq).toNat < 32768 := by
+  have hH : c15GapHalf = 32768 := c15GapHalf_val
+  unfold GapSt.step at h
+  by_cases h1 : st.lastSsrc ≠ 0 ∧ st.lastSsrc ≠ ssrc
+  · rw [if_pos h1] at h; cases h
+  · rw [if_neg h1] at h
+    cases hi : st.initialized with
+    | false => simp [hi] at h
+    | true =>
+      simp only [hi, Bool.not_true, Bool.false_eq_true, if_false] at h
+      by_cases hp : st.pending.contains seq = true
+      · rw [if_pos hp] at h; cases h
+      · rw [if_neg hp] at h
+        have hp : st.pending.contains seq = false := by simpa using hp
+        by_cases h4 : (seq - st.lastSeq).toNat > 1 ∧ (seq - st.lastSeq).toNat < c15GapHalf
+        · refine ⟨rfl, ?_, hp, h4.1, by omega⟩
+          by_cases h0 : st.lastSsrc = 0
+          · exact Or.inl h0
+          · right
+            by_cases hh : st.lastSsrc = ssrc
+            · exact hh
+            · exact absurd ⟨h0, hh⟩ h1
+        · rw [if_neg h4] at h
+          split at h <;> cases h
 
 end RtcModel.Theorems.C15
